@@ -233,7 +233,7 @@ theorem flatten_start : ∀ c : CST, ∃ t r, c.flatten = t :: r ∧ t.isStart =
 
 namespace Spec.CST
 def needsFollowTok : CST → Bool
-  | .unary _ c => !c.isPostfixNode
+  | .unary _ _ => true
   | _ => false
 def isTokLevel : CST → Bool
   | .atom _ | .paren _ | .unary _ _ | .call _ _ | .list _ | .map _ => true
@@ -243,8 +243,8 @@ end Spec.CST
 structure M (regs : Regs) (lim d : Nat) (c : CST) : Prop where
   t : c.isTokLevel = true → ∀ X, (c.needsFollowTok = true → PrimFollow regs X) →
         PTok regs lim d (c.flatten ++ X) c.strip X
-  a : ∀ X, (c.lead.isPostfixNode = false → PrimFollow regs X) →
-        PPrim regs lim d (c.lead.flatten ++ X) c.lead.strip X
+  q : c.postfixable = true → ∀ X e rest, PPost regs lim c.strip X e rest → PPrim regs lim d (c.flatten ++ X) e rest
+  a : ∀ X, PrimFollow regs X → PPrim regs lim d (c.lead.flatten ++ X) c.lead.strip X
   b : c.isTern = false → ∀ (p : Int) rest e fin, (∀ o ∈ c.spineOps, ¬ (regs.bp o).1 < p) → GateOK regs c rest →
         RestOK regs rest → POp regs lim d p c.strip rest e fin → POp regs lim d p c.lead.strip (c.tail ++ rest) e fin
   c : c.isTern = true → ∀ rest, Follow regs rest → POp regs lim d 0 c.lead.strip (c.tail ++ rest) c.strip rest
@@ -260,7 +260,7 @@ theorem top_of_M {regs : Regs} (tb : TableOK regs) {lim d : Nat} {c : CST} (hc :
     (m : M regs lim (d + 1) c) (rest : List Tok) (hs : Follow regs rest) :
     PExpr regs lim d (c.flatten ++ rest) c.strip rest := by
   rw [flatten_lead_tail, List.append_assoc]
-  refine PExpr.mk hd (m.a _ fun _ => tail_primFollow tb c rest hc hs.primFollow) ?_
+  refine PExpr.mk hd (m.a _ (tail_primFollow tb c rest hc hs.primFollow)) ?_
   cases ht : c.isTern with
   | false =>
     refine m.b ht 0 rest _ _ (fun o ho => ?_) (fun o _ => hs.gate _) hs.restOK (hs.stop _ _)
@@ -269,21 +269,17 @@ theorem top_of_M {regs : Regs} (tb : TableOK regs) {lim d : Nat} {c : CST} (hc :
   | true => exact m.c ht rest hs
 
 theorem M.ofTok {regs : Regs} {lim d : Nat} {c : CST} (hlead : c.lead = c) (htail : c.tail = [])
-    (hnp : c.isPostfixNode = false) (hnt : c.isTern = false)
+    (hnt : c.isTern = false) (hq : c.postfixable = true → c.needsFollowTok = false)
     (t : ∀ X, (c.needsFollowTok = true → PrimFollow regs X) → PTok regs lim d (c.flatten ++ X) c.strip X) : M regs lim d c := by
-  refine ⟨fun _ => t, fun X hX => ?_, fun _ p rest e fin _ _ _ h => ?_, fun h => ?_⟩
-  · rw [hlead] at hX ⊢
-    exact PPrim.ofTok (t X fun _ => hX hnp) (hX hnp)
+  refine ⟨fun _ => t, fun hpf X e rest hp => ?_, fun X hX => ?_, fun _ p rest e fin _ _ _ h => ?_, fun h => ?_⟩
+  · exact PPrim.mk (t X (fun hn => by rw [hq hpf] at hn; cases hn)) hp
+  · rw [hlead]
+    exact PPrim.ofTok (t X fun _ => hX) hX
   · rw [hlead, htail]; simpa using h
   · rw [hnt] at h; cases h
 
 theorem primary_shape {c : CST} (h : c.isPrimary = true) : c.lead = c ∧ c.tail = [] ∧ c.isTern = false ∧ c.root? = none := by
   cases c <;> simp_all [isPrimary, lead, tail, isTern, root?]
-
-theorem postfixable_shape {c : CST} (h : c.postfixable = true) : c.isTokLevel = true ∧ c.needsFollowTok = false := by
-  cases c with
-  | unary o c' => cases c' <;> simp_all [postfixable, isTokLevel, needsFollowTok, isPostfixNode]
-  | _ => simp_all [postfixable, isTokLevel, needsFollowTok]
 
 theorem clist_start : ∀ (c : CST) (r : CList), ∃ t ts, (CList.cons c r).flatten = t :: ts ∧ t.isStart = true := by
   intro c r
@@ -313,7 +309,7 @@ mutual
 theorem main {regs : Regs} (tb : TableOK regs) (lim : Nat) : ∀ (c : CST) (d : Nat), Canon regs c → d + c.nest ≤ lim →
     c.strip.height ≤ lim → M regs lim d c
   | .atom a, d, _, _, _ => by
-    refine M.ofTok rfl rfl rfl rfl fun X _ => ?_
+    refine M.ofTok rfl rfl rfl (fun _ => rfl) fun X _ => ?_
     cases a <;> simp only [CST.flatten, Atom.tok, CST.strip, Atom.ast, List.cons_append, List.nil_append]
     · exact PTok.num _ _
     · exact PTok.bool _ _
@@ -323,7 +319,7 @@ theorem main {regs : Regs} (tb : TableOK regs) (lim : Nat) : ∀ (c : CST) (d : 
     simp only [CST.nest] at hn
     have hc' : Canon regs c := hc
     have m := main tb lim c (d + 1) hc' (by omega) hh
-    refine M.ofTok rfl rfl rfl rfl fun X _ => ?_
+    refine M.ofTok rfl rfl rfl (fun _ => rfl) fun X _ => ?_
     simp only [CST.flatten, CST.strip, List.cons_append, List.append_assoc, List.nil_append]
     exact PTok.paren (top_of_M (d := d) (c := c) tb hc' (by omega) m _ (follow_close _ _ _))
   | .unary o c, d, hc, hn, hh => by
@@ -332,26 +328,29 @@ theorem main {regs : Regs} (tb : TableOK regs) (lim : Nat) : ∀ (c : CST) (d : 
     simp only [CST.strip, AST.height] at hh
     have m := main tb lim c (d + 1) hcc (by omega) (by omega)
     obtain ⟨hlead, _, _, _⟩ := primary_shape hprim
-    refine M.ofTok rfl rfl rfl rfl fun X hX => ?_
+    refine M.ofTok rfl rfl rfl (fun h => by cases h) fun X hX => ?_
     simp only [CST.flatten, CST.strip, List.cons_append]
     refine PTok.unary hpre (by omega) ?_ hh
-    have := m.a X (by rw [hlead]; intro hp; exact hX (by simp [needsFollowTok, hp]))
+    have := m.a X (hX rfl)
     rwa [hlead] at this
   | .postfix c o, d, hc, hn, hh => by
     obtain ⟨hpost, hpf, hcc⟩ := hc
     simp only [CST.nest] at hn
     simp only [CST.strip, AST.height] at hh
     have m := main tb lim c d hcc hn (by omega)
-    obtain ⟨htl, hnf⟩ := postfixable_shape hpf
-    refine ⟨fun h => by simp [isTokLevel] at h, fun X _ => ?_, fun _ p rest e fin _ _ _ h => ?_, fun h => by simp [isTern] at h⟩
-    · simp only [lead, CST.flatten, CST.strip, List.append_assoc, List.cons_append, List.nil_append]
-      exact PPrim.postfix (m.t htl _ (by rw [hnf]; intro h; cases h)) hpost hh
+    have q : ∀ X e rest, PPost regs lim (CST.postfix c o).strip X e rest → PPrim regs lim d ((CST.postfix c o).flatten ++ X) e rest := by
+      intro X e rest hp
+      simp only [CST.flatten, List.append_assoc, List.cons_append, List.nil_append]
+      exact m.q hpf _ e rest (PPost.step hpost hh hp)
+    refine ⟨fun h => by simp [isTokLevel] at h, fun _ => q, fun X hX => ?_, fun _ p rest e fin _ _ _ h => ?_, fun h => by simp [isTern] at h⟩
+    · simp only [lead]
+      exact q X _ X (PPost.stop hX)
     · simpa [lead, tail] using h
   | .call n args, d, hc, hn, hh => by
     simp only [CST.nest] at hn
     simp only [CST.strip, AST.height] at hh
     have m := mainList tb lim args d hc hn (by omega)
-    refine M.ofTok rfl rfl rfl rfl fun X _ => ?_
+    refine M.ofTok rfl rfl rfl (fun _ => rfl) fun X _ => ?_
     cases args with
     | nil => simpa [CST.flatten, CList.flatten, CST.strip, CList.strip] using PTok.call0 n X
     | cons c r =>
@@ -363,14 +362,14 @@ theorem main {regs : Regs} (tb : TableOK regs) (lim : Nat) : ∀ (c : CST) (d : 
     simp only [CST.nest] at hn
     simp only [CST.strip, AST.height] at hh
     have m := mainList tb lim xs d hc hn (by omega)
-    refine M.ofTok rfl rfl rfl rfl fun X _ => ?_
+    refine M.ofTok rfl rfl rfl (fun _ => rfl) fun X _ => ?_
     simp only [CST.flatten, CST.strip, List.cons_append, List.append_assoc, List.nil_append]
     exact PTok.list (m.items X) hh
   | .map kvs, d, hc, hn, hh => by
     simp only [CST.nest] at hn
     simp only [CST.strip, AST.height] at hh
     have m := mainMap tb lim kvs d hc hn (by omega)
-    refine M.ofTok rfl rfl rfl rfl fun X _ => ?_
+    refine M.ofTok rfl rfl rfl (fun _ => rfl) fun X _ => ?_
     simp only [CST.flatten, CST.strip, List.cons_append, List.append_assoc, List.nil_append]
     exact PTok.map (m X) hh
   | .tern c a b, d, hc, hn, hh => by
@@ -381,7 +380,7 @@ theorem main {regs : Regs} (tb : TableOK regs) (lim : Nat) : ∀ (c : CST) (d : 
     have mc := main tb lim c d hcc (by omega) (by omega)
     have ma := main tb lim a (d + 1) hca (by omega) (by omega)
     have mb := main tb lim b (d + 1) hcb (by omega) (by omega)
-    refine ⟨fun h => by simp [isTokLevel] at h, fun X hX => by simpa [lead] using mc.a X (by simpa [lead] using hX),
+    refine ⟨fun h => by simp [isTokLevel] at h, fun h => by simp [postfixable] at h, fun X hX => by simpa [lead] using mc.a X hX,
       fun h => by simp [isTern] at h, fun _ rest hs => ?_⟩
     simp only [lead, tail, CST.strip, List.append_assoc, List.cons_append]
     refine mc.b hct 0 _ _ _ (fun o ho => ?_) (fun o _ => gate_q tb _ _) (restOK_q tb _) ?_
@@ -402,7 +401,7 @@ theorem main {regs : Regs} (tb : TableOK regs) (lim : Nat) : ∀ (c : CST) (d : 
     have mr := main tb lim r d hr hnr (by omega)
     have hono := infix_ne_not tb hinf
     have bo := bp_facts tb hinf
-    refine ⟨fun h => by simp [isTokLevel] at h, fun X hX => by simpa [lead] using ml.a X (by simpa [lead] using hX),
+    refine ⟨fun h => by simp [isTokLevel] at h, fun h => by simp [postfixable] at h, fun X hX => by simpa [lead] using ml.a X hX,
       fun _ p rest e fin hsp hgate hrest h => ?_, fun h => by simp [isTern] at h⟩
     simp only [lead, tail, List.append_assoc]
     have hop : ¬ (regs.bp o).1 < p := hsp o (by simp [spineOps])
@@ -430,7 +429,7 @@ theorem main {regs : Regs} (tb : TableOK regs) (lim : Nat) : ∀ (c : CST) (d : 
       cases hrr : r.root? with
       | none =>
         have hnb := nonbin_lead r hrr hrt
-        have hp := mr.a rest (fun _ => hrest.1)
+        have hp := mr.a rest hrest.1
         rw [hnb.1] at hp
         exact POp.step (opToks_ne_q tb hinf nt _) hhead hinf hop hp (Or.inl ⟨hgate o rfl, rfl, rfl⟩) hh' h
       | some rr =>
@@ -502,7 +501,7 @@ theorem main {regs : Regs} (tb : TableOK regs) (lim : Nat) : ∀ (c : CST) (d : 
                     · rw [hi4] at hg; cases hg
                     · exact POp.stopLow hne hho (fun _ => hi4) (by omega)
               | _ => exact POp.stopNonOp (by intro _ _ e; cases e)
-        have hprim := mr.a (r.tail ++ rest) (fun _ => tail_primFollow tb r rest hr hrest.1)
+        have hprim := mr.a (r.tail ++ rest) (tail_primFollow tb r rest hr hrest.1)
         have hfl : r.flatten ++ rest = r.lead.flatten ++ (r.tail ++ rest) := by
           rw [flatten_lead_tail r, List.append_assoc]
         rw [hfl] at hhead ⊢
